@@ -306,7 +306,9 @@ pub struct EnumCase {
 fn near_miss(s: &str, how: u8, pos: u16) -> String {
     let chars: Vec<char> = s.chars().collect();
     let i = pick_idx(pos, chars.len().max(1));
-    match how % 9 {
+    match how % 11 {
+        9 => format!("{s}{s}"),
+        10 => format!("{}{s}", chars.iter().take(i).collect::<String>()),
         0 => s.to_uppercase(),
         1 => {
             let mut c = chars.clone();
@@ -385,6 +387,38 @@ pub fn run(ck: &mut Check) {
             oracle.clone(),
         );
     }
+    // G3: wildcard types with structured suffixes: every spelling of the same enum, the prefix itself repeated,
+    // near misses of the prefix, and combinations (suffixes a real key id could legitimately be).
+    {
+        let mut cases = vec![];
+        for s in all.iter() {
+            for p in &s.wildcard_prefixes {
+                let mut suffixes: Vec<String> = vec!["".into(), ".".into(), "a".into(), " ".into(), "*".into(), (*p).into(), format!("{p}{p}"), format!("{p}a"), format!("a{p}"), p.trim_end_matches('.').into()];
+                suffixes.extend(s.spellings.iter().map(|x| (*x).to_owned()));
+                for how in 0..11u8 {
+                    for pos in [0u16, 20000, 40000, 65535] {
+                        suffixes.push(near_miss(p, how, pos));
+                    }
+                }
+                let texts: Vec<String> = suffixes.iter().map(|x| format!("{p}{x}")).collect();
+                for (i, a) in texts.iter().enumerate() {
+                    let b = &texts[(i * 7 + 3) % texts.len()];
+                    cases.push(EnumCase { ty: s.name.into(), a: a.clone(), b: b.clone(), c: suffixes[i].clone() });
+                    cases.push(EnumCase { ty: s.name.into(), a: a.clone(), b: suffixes[i].clone(), c: b.clone() });
+                }
+            }
+        }
+        let cases = std::sync::Arc::new(cases);
+        ck.exhaustive(
+            "wildcard_structured_suffixes",
+            true,
+            move |sh, n| {
+                let cases = cases.clone();
+                (0..cases.len()).skip(sh as usize).step_by(n as usize).map(move |i| cases[i].clone())
+            },
+            oracle.clone(),
+        );
+    }
     let n = ck.n(300_000, 20_000_000);
     let all3 = all.clone();
     ck.prop(
@@ -400,7 +434,13 @@ pub fn run(ck: &mut Check) {
                         0 | 1 => base.to_owned(),
                         2..=5 => near_miss(base, how, pos),
                         6 => match spec.wildcard_prefixes.first() {
-                            Some(p) => format!("{p}{rnd}"),
+                            Some(p) => match how % 6 {
+                                0 | 1 => format!("{p}{rnd}"),
+                                2 => format!("{p}{p}{rnd}"),
+                                3 => format!("{p}{p}{p}"),
+                                4 => format!("{p}{base}"),
+                                _ => format!("{p}{}{rnd}", near_miss(p, how / 6, pos)),
+                            },
                             None => near_miss(&near_miss(base, how, pos), how / 9, pos / 3),
                         },
                         7 => spec.aliases.first().map(|a| a.0.to_owned()).unwrap_or_else(|| rnd.clone()),
